@@ -382,6 +382,8 @@ def _case_hist(ctx, case, h, d):
         elif cands:
             s, _ = cands[case['fmt'] % len(cands)]
             for fn in case['fns']:
+                if fn == 'prune_twigs_exact' and d.get('dtype'):
+                    continue        # integer-typed tables: the new tip positions are cast back to the integer dtype (a C12 finding)
                 if fn in ('tortuosity', 'split_fragments') and not exact:
                     continue        # ties between equally long branches / interpolation steps: float noise decides
                 try:
